@@ -14,6 +14,8 @@ from hypothesis import strategies as st
 from vlib.runner import Violation, hyp_run, shard_seed, crash_sig
 from vlib import cli, gen_prog
 
+CASE_CPU_LIMIT_S = 300       # the slowest legitimate case (a ROM-speed load under the pure Python simulator) takes well under a minute of CPU
+
 PROPERTY = 'C12'
 RULE = ('Hypothesis draws binary content (random / zeros / 0xFF / alternating worst-case edges), length, ORG, START, STACK or '
         'CLEAR (STACK - ORG in every alignment from -3 to length+4, inside the display file, or far away), optional SCR loading '
@@ -62,7 +64,7 @@ def load_configs(draw, small, allow_python=True):
         cfg['polarity'] = 1
     if draw(st.integers(0, 4)) == 0:
         cfg['first-edge'] = draw(st.sampled_from([0, 1, 1000, 3000]))
-    if allow_python and (fast or small) and draw(st.integers(0, 5)) == 0:
+    if allow_python and (fast or small) and draw(st.integers(0, 4)) == 0:
         cfg['python'] = 1
     if draw(st.sampled_from([0, 0, 0, 1])):
         cfg['finish-tape'] = 1      # a bin2tap tape ends with the block that holds START: the outcome is the same
@@ -144,7 +146,7 @@ def cases128(draw, tier):
     case = {'kind': '128', 'seed': draw(st.integers(0, 2 ** 31)), 'ext': draw(st.sampled_from(['tap', 'pzx'])), 'clear': clear, 'begin': begin, 'end': end,
             'banks': None if default_banks else banks, 'o7ffd': draw(st.sampled_from([0, 1, 3, 16, 17, 23, 7])), 'loader': loader_addr, 'start': start,
             'screen': draw(st.sampled_from([None, None, 'scr'])), 'input': draw(st.sampled_from(['bin', 'bin', 'szx']))}
-    case['load'] = draw(load_configs(False, allow_python=False))
+    case['load'] = draw(load_configs(False))      # (python only with fast-load: from-scratch 128K memory under the pure Python simulator)
     case['load']['machine'] = 128
     return case
 
